@@ -105,14 +105,14 @@ class Repo:
         self.head = ("detached", cid)
         self.ops.append("detach at c%d" % cid)
 
-    def merge(self, other):
+    def merge(self, other, force_noff=False):
         """merge branch `other` into HEAD (--no-ff when possible)"""
         h, o = self.head_cid(), self.branches[other]
         if o in self.anc(h):
             return False            # already merged
         if h in self.anc(o):
             # fast-forward possible: do a real ff half of the time
-            if self.rng.random() < 0.5:
+            if not force_noff and self.rng.random() < 0.5:
                 self.git("merge", "-q", "--ff-only", "refs/heads/" + other)
                 if self.head[0] == "branch":
                     self.branches[self.head[1]] = o
